@@ -1023,3 +1023,145 @@ Example page_renders_refuted :
    | Ok _, Ok _, Ok _ => True | _, _, _ => False end) /\
   render_page 18 ex_null ex_cut_layout <> Err ValueError.
 Proof. vm_compute. repeat split; try reflexivity. discriminate. Qed.
+
+(* ================= the help pages render ================= *)
+(* The labels the help model builds - <c1>--opt</c1> (-o), <c1><</c1><c1>name></c1>, <c1>command</c1>, the synopsis label
+   <u>app</u> <u>cmd</u> [<u>sub</u>] - and its headings <b>...</b> are good once and for all (calm: neutral, no hyphen in a
+   tag name, nothing pending behind them), whatever the style table: *)
+Theorem help_labels_calm : forall sty,
+  (forall h, plain (o_long (h_o h)) -> (match o_short (h_o h) with Some s => plain s | None => True end) ->
+             calm sty (elem_label (render_option h)))
+  /\ (forall a, plain (a_name (h_a a)) -> calm sty (elem_label (render_argument a)))
+  /\ (forall n, plain n -> calm sty (C1 ++ n ++ C1E))
+  /\ (forall app_name names opts args prefix lo,
+        (match app_name with Some n => plain n | None => True end) -> Forall plain names -> plain prefix ->
+        calm sty (elem_label (synopsis sty app_name names opts args prefix lo)))
+  /\ markup_fine sty H_USAGE /\ markup_fine sty H_ARGUMENTS /\ markup_fine sty H_COMMANDS /\ markup_fine sty H_OPTIONS
+  /\ markup_fine sty H_GLOBAL /\ markup_fine sty H_AVAILABLE.
+Proof.
+  intros sty. split; [exact (option_label_calm sty)|]. split; [exact (argument_label_calm sty)|]. split; [exact (command_label_calm sty)|].
+  split; [exact (synopsis_label_calm sty)|]. repeat split; first [apply H_USAGE_fine|apply H_ARGUMENTS_fine|apply H_COMMANDS_fine|apply H_OPTIONS_fine|apply H_GLOBAL_fine|apply H_AVAILABLE_fine].
+Qed.
+Print Assumptions help_labels_calm.
+(* calm texts one behind the other are calm; a pair of tags of a style name without hyphen and "=" around calm text is calm *)
+Theorem calm_composes : forall sty a b, calm sty a -> calm sty b -> calm sty (a ++ b).
+Proof. exact calm_app. Qed.
+Print Assumptions calm_composes.
+Theorem calm_tag_pair : forall sty nm x, simple_nm nm -> calm sty x -> calm sty (tag_str false nm ++ x ++ tag_str true nm).
+Proof. exact calm_wrap. Qed.
+Print Assumptions calm_tag_pair.
+
+(* The pages.  The configuration (opt_fine, arg_fine, sub_fine): the names put between tags (application, commands, options,
+   arguments, version) hold no "<" and no backslash (plain); descriptions, help texts, aliases, the display name hold no "<"
+   (tag-free descriptions: the simplest good markup); a default value as json.dumps writes it holds no "<"; the names shown as
+   <name> placeholders in the synopsis (value names, argument names) hold no white space and are either tag-like names without
+   hyphen and "=" - escaped by the help model when they are styles - or start no tag at all ("<...>", the default value name)
+   (ph_name).  The width: room for the visible labels (needed_width_for) and, for the texts the model puts tags into, no word to
+   break (page_words_fit: decidable, page_words_fitb).  Then the page renders through the formatter whose style table it was
+   built with, whatever the state of its style stack, and every line fits. *)
+Theorem command_help_renders_and_fits_plain : forall W f app_name ch aliases help subs,
+  f_kind f = FPlain ->
+  (match app_name with Some n => no_nl n | None => True end) -> Forall no_nl (chain_names ch) ->
+  Forall arg_one_line (chain_args ch) -> Forall opt_one_line (own_opts ch) -> Forall opt_one_line (base_opts ch) ->
+  Forall sub_one_line subs ->
+  (match app_name with Some n => plain n | None => True end) -> Forall plain (chain_names ch) ->
+  Forall arg_fine (chain_args ch) -> Forall opt_fine (own_opts ch) -> Forall opt_fine (base_opts ch) ->
+  Forall sub_fine subs -> Forall no_lt aliases -> no_lt (odesc help) ->
+  (needed_width_for (f_styles f) (command_page (f_styles f) app_name ch aliases help subs) <= W)%Z ->
+  page_words_fit (f_styles f) W (command_page (f_styles f) app_name ch aliases help subs) ->
+  exists s, render_page W f (command_page (f_styles f) app_name ch aliases help subs) = Ok s
+            /\ Forall (fun ln => (zlen ln <= W - 1)%Z) (split_on 10%N s).
+Proof. exact command_help_renders_and_fits_plain_lemma. Qed.
+Print Assumptions command_help_renders_and_fits_plain.
+Theorem command_help_renders_and_fits_ansi_visible : forall W f app_name ch aliases help subs,
+  is_ansi f ->
+  (match app_name with Some n => no_nl n | None => True end) -> Forall no_nl (chain_names ch) ->
+  Forall arg_one_line (chain_args ch) -> Forall opt_one_line (own_opts ch) -> Forall opt_one_line (base_opts ch) ->
+  Forall sub_one_line subs ->
+  (match app_name with Some n => plain n | None => True end) -> Forall plain (chain_names ch) ->
+  Forall arg_fine (chain_args ch) -> Forall opt_fine (own_opts ch) -> Forall opt_fine (base_opts ch) ->
+  Forall sub_fine subs -> Forall no_lt aliases -> no_lt (odesc help) ->
+  clean_layout (command_page (f_styles f) app_name ch aliases help subs) ->
+  (needed_width_for (f_styles f) (command_page (f_styles f) app_name ch aliases help subs) <= W)%Z ->
+  page_words_fit (f_styles f) W (command_page (f_styles f) app_name ch aliases help subs) ->
+  exists s, render_page W f (command_page (f_styles f) app_name ch aliases help subs) = Ok s
+            /\ Forall (fun ln => (zlen (strip_sgr ln) <= W - 1)%Z) (split_on 10%N s).
+Proof. exact command_help_renders_and_fits_ansi_lemma. Qed.
+Print Assumptions command_help_renders_and_fits_ansi_visible.
+Theorem application_help_renders_and_fits_plain : forall W f app_name display version gopts cmds help,
+  f_kind f = FPlain ->
+  (match app_name with Some n => no_nl n | None => True end) -> Forall opt_one_line gopts -> Forall (fun c => no_nl (ac_name c)) cmds ->
+  (match app_name with Some n => plain n | None => True end) ->
+  no_lt (odesc display) -> plain (odesc version) -> Forall opt_fine gopts ->
+  Forall (fun c => plain (ac_name c) /\ no_lt (ac_desc c)) cmds -> no_lt (odesc help) ->
+  (needed_width_for (f_styles f) (application_page (f_styles f) app_name display version gopts cmds help) <= W)%Z ->
+  page_words_fit (f_styles f) W (application_page (f_styles f) app_name display version gopts cmds help) ->
+  exists s, render_page W f (application_page (f_styles f) app_name display version gopts cmds help) = Ok s
+            /\ Forall (fun ln => (zlen ln <= W - 1)%Z) (split_on 10%N s).
+Proof. exact application_help_renders_and_fits_plain_lemma. Qed.
+Print Assumptions application_help_renders_and_fits_plain.
+Theorem application_help_renders_and_fits_ansi_visible : forall W f app_name display version gopts cmds help,
+  is_ansi f ->
+  (match app_name with Some n => no_nl n | None => True end) -> Forall opt_one_line gopts -> Forall (fun c => no_nl (ac_name c)) cmds ->
+  (match app_name with Some n => plain n | None => True end) ->
+  no_lt (odesc display) -> plain (odesc version) -> Forall opt_fine gopts ->
+  Forall (fun c => plain (ac_name c) /\ no_lt (ac_desc c)) cmds -> no_lt (odesc help) ->
+  clean_layout (application_page (f_styles f) app_name display version gopts cmds help) ->
+  (needed_width_for (f_styles f) (application_page (f_styles f) app_name display version gopts cmds help) <= W)%Z ->
+  page_words_fit (f_styles f) W (application_page (f_styles f) app_name display version gopts cmds help) ->
+  exists s, render_page W f (application_page (f_styles f) app_name display version gopts cmds help) = Ok s
+            /\ Forall (fun ln => (zlen (strip_sgr ln) <= W - 1)%Z) (split_on 10%N s).
+Proof. exact application_help_renders_and_fits_ansi_lemma. Qed.
+Print Assumptions application_help_renders_and_fits_ansi_visible.
+(* what the model's own texts need of the width is decidable *)
+Theorem page_words_fit_decided : forall sty W l, page_words_fitb sty W l = true -> page_words_fit sty W l.
+Proof. exact page_words_fitb_ok. Qed.
+Print Assumptions page_words_fit_decided.
+
+(* ---- the hypotheses are met: the command page of the examples above (tag-free descriptions, an option with the value
+   name "..." and one with a default, an argument, four sub-commands), built with the styles of the formatter ---- *)
+Ltac ex_plain := split; repeat constructor; discriminate.
+Ltac ex_notin := cbn; let H := fresh in intros H; repeat (destruct H as [H|H]; [discriminate|]); exact H.
+Ltac ex_tagname := split; [repeat constructor|left; split; [split; [reflexivity|repeat constructor]|split; ex_notin]].
+Lemma ex_level_fine : opt_fine ex_level.
+Proof. split; [ex_plain|]. split; [ex_plain|]. split; [constructor|]. split; [ex_tagname|repeat constructor; discriminate]. Qed.
+Lemma ex_force_fine : opt_fine ex_force.
+Proof.
+  split; [ex_plain|]. split; [ex_plain|]. split; [apply no_ltb_ok; vm_compute; reflexivity|].
+  split; [|repeat constructor; discriminate].
+  split; [repeat constructor|right]. exists 46%N, [46; 46]%N. repeat split; try reflexivity; try discriminate. repeat constructor; discriminate.
+Qed.
+Lemma ex_file_fine : arg_fine ex_file.
+Proof. split; [ex_plain|]. split; [ex_tagname|]. split; [apply no_ltb_ok; vm_compute; reflexivity|]. split; [repeat constructor; discriminate|reflexivity]. Qed.
+Lemma ex_sub_fine name hidden enabled : plain name -> sub_fine (ex_sub name hidden enabled).
+Proof.
+  intros Hn. split; [exact Hn|]. split; [apply no_ltb_ok; vm_compute; reflexivity|]. split; [constructor|].
+  split; [constructor; [exact ex_file_fine|constructor]|constructor; [exact ex_level_fine|constructor]].
+Qed.
+Definition ex_page_for (f : formatter) : layout := command_page (f_styles f) (Some APP) ex_chain [SRV] (Some DESC_FILE) ex_subs.
+Example ex_page_widths : needed_width_for (f_styles ex_plainf) (ex_page_for ex_plainf) = 23%Z /\
+  page_words_fitb (f_styles ex_plainf) 34 (ex_page_for ex_plainf) = true /\ page_words_fitb (f_styles ex_plainf) 33 (ex_page_for ex_plainf) = false /\
+  page_words_fitb (f_styles ex_plainf) 80 (ex_page_for ex_plainf) = true.
+Proof. vm_compute. repeat split; reflexivity. Qed.
+Example ex_page_renders_plain : forall W, W = 34%Z \/ W = 80%Z ->
+  exists s, render_page W ex_plainf (ex_page_for ex_plainf) = Ok s /\ Forall (fun ln => (zlen ln <= W - 1)%Z) (split_on 10%N s).
+Proof.
+  intros W HW.
+  assert (Forall arg_fine (chain_args ex_chain)) as A1 by (cbn; constructor; [exact ex_file_fine|constructor]).
+  assert (Forall opt_fine (own_opts ex_chain)) as A2 by (cbn; constructor; [exact ex_force_fine|constructor]).
+  assert (Forall opt_fine (base_opts ex_chain)) as A3 by (cbn; constructor; [exact ex_level_fine|constructor]).
+  assert (Forall sub_fine ex_subs) as A4 by (unfold ex_subs; repeat (constructor; [apply ex_sub_fine; ex_plain|]); constructor).
+  assert (Forall plain (chain_names ex_chain)) as A5 by (cbn; constructor; [ex_plain|constructor]).
+  assert (Forall no_nl (chain_names ex_chain)) as B1 by (cbn; repeat constructor; nl_char).
+  assert (Forall arg_one_line (chain_args ex_chain)) as B2 by (cbn; repeat constructor; nl_char).
+  assert (Forall opt_one_line (own_opts ex_chain)) as B3 by (cbn; repeat constructor; nl_char).
+  assert (Forall opt_one_line (base_opts ex_chain)) as B4 by (cbn; repeat constructor; nl_char).
+  assert (Forall sub_one_line ex_subs) as B5 by (cbn; repeat constructor; nl_char).
+  assert (no_nl APP) as B6 by (repeat constructor; nl_char).
+  assert (plain APP) as A6 by ex_plain.
+  assert (Forall no_lt [SRV]) as A7 by (repeat constructor; discriminate).
+  assert (no_lt (odesc (Some DESC_FILE))) as A8 by (apply no_ltb_ok; vm_compute; reflexivity).
+  apply (command_help_renders_and_fits_plain W ex_plainf (Some APP) ex_chain [SRV] (Some DESC_FILE) ex_subs eq_refl B6 B1 B2 B3 B4 B5 A6 A5 A1 A2 A3 A4 A7 A8).
+  - destruct HW as [-> | ->]; vm_compute; discriminate.
+  - apply page_words_fit_decided. destruct HW as [-> | ->]; vm_compute; reflexivity.
+Qed.
